@@ -153,6 +153,13 @@ def run_property(prop, tier="quick", replay=None, extra_checks=None):
                 all_obs.extend(fn(prop))
             except Exception:
                 errors.append("thorough extra check failed: %s" % traceback.format_exc()[-1500:])
+    if tier == "thorough" and prop in ("C02", "C04", "C06", "C12", "C13"):
+        try:
+            import witness
+
+            all_obs.extend(witness.obligations(prop))
+        except Exception:
+            errors.append("witness harness failed: %s" % traceback.format_exc()[-1500:])
     if hasattr(mod, "thorough_extra") and tier == "thorough":
         try:
             all_obs.extend(mod.thorough_extra(prop))
